@@ -172,18 +172,8 @@ def check(ctx):
     if fn is None:
         r1.bad(V(r1.id, "<anchor>", "missing:map_to_target_primitive", "anchor not found"))
     else:
-        for e in walk_block(fn.body):
-            if e.get("k") == "match":
-                for arm in e["arms"]:
-                    pats = arm["pat"]["cases"] if arm["pat"].get("k") == "or" else [arm["pat"]]
-                    body = arm["body"]
-                    tgt = None
-                    for x in walk(body):
-                        if x.get("k") == "lit" and x["lit"]["t"] == "str":
-                            tgt = x["lit"]["v"]
-                    for p in pats:
-                        if p.get("k") == "lit":
-                            got[p["lit"]["v"]] = tgt
+        from srclib import literal_map
+        got = literal_map(S, fn)
         for k in sorted(set(got) | set(DOC_PRIMITIVES)):
             if got.get(k) == DOC_PRIMITIVES.get(k):
                 r1.ok("%s -> %s" % (k, got[k]))
